@@ -1,4 +1,5 @@
 """C01 Builder calls never change any object that already exists."""
+import json
 import random
 
 from harness import ns
@@ -111,7 +112,22 @@ def counts(tier):
     return 2500 if tier == "quick" else 40000
 
 
+# fixed histories in which one un-aliased sub-query object is used by several statements (the auto-alias is written
+# once, by the first statement that uses it — a listed finding — and must not change again afterwards)
+SHARED_SUBQUERY_SCRIPTS = [
+    "o0 = {Q}.from_(T('u')).select('a')\no1 = {Q}.from_(T('v')).select('b')\no2 = {Q}.from_(o0).select('a')\n"
+    "o3 = {Q}.from_(o1)\no4 = o3.from_(o0)\no5 = o4.select('a')",
+    "o0 = {Q}.from_(T('u')).select('a')\no1 = {Q}.from_(T('v')).select('b')\no2 = {Q}.from_(o0).select('a')\n"
+    "o3 = {Q}.from_(o1).from_(o0).select('a')\no4 = {Q}.from_(T('w')).join(o0).on(T('w').a == o0.a).select('a')",
+    "o0 = {Q}.from_(T('u')).select('a')\no1 = {Q}.from_(T('t')).join(o0).on(T('t').a == o0.a).select('a')\n"
+    "o2 = {Q}.from_(T('v')).select('b')\no3 = {Q}.from_(o2).from_(o0).select('a')\no4 = {Q}.from_(o2).join(o0).on(o2.b == o0.a).select('a')",
+]
+
+
 def generate(rng, n, tier):
+    for cls in ("generic", "mysql", "postgresql", "sqlite"):
+        for sc in SHARED_SUBQUERY_SCRIPTS:
+            yield {"family": "query", "cls": cls, "seed": 0, "len": 0, "script_override": sc.replace("{Q}", ns.QNAMES[cls])}
     fams = list(FAMILIES) + ["query"] * 10
     for i in range(n):
         fam = rng.choice(fams)
@@ -282,15 +298,25 @@ def examine(case):
         recv_counts[r] = recv_counts.get(r, 0) + 1
     res.nontrivial = any(c >= 2 for c in recv_counts.values())
     res.tags = ["family=" + case["family"], "len=%d" % len(lines)] + (["cls=" + case["cls"]] if case["family"] == "query" else [])
-    for line, var, obj, before, after, raised in findings[:1]:
+    seen_sigs = set()
+    for line, var, obj, before, after, raised in (findings if case.get("script_override") else findings[:1]):
         call = line.split("= ", 1)[1]
         recv = call.split(".")[0].split("[")[0].split(" ")[0]
         meth = call[len(recv):].lstrip(".").split("(")[0].split("[")[0].strip() or "slice"
         robj = env.get(recv)
         role = "receiver" if var == recv else ("argument" if (var + ")" in call or var + "," in call or var + "." in call[len(recv):]) else "earlier-object")
+        if role == "argument" and before[1] is not None:
+            # the listed findings are about an UN-aliased argument receiving its invented alias; an argument that already
+            # had an alias (or an invented name from an earlier statement) and is changed again is something else
+            role = "argument-already-aliased"
         sig = {"class": base_class(robj) if robj is not None else "?", "method": meth, "changed": role}
         if sig["class"] == "Joiner":
             sig["method"] = "*"
+        if isinstance(robj, type):
+            sig["class"] = "QueryBuilder"      # Query.from_(…) / MySQLQuery.from_(…): the class method delegates to a fresh builder
+        if json.dumps(sig, sort_keys=True) in seen_sigs:
+            continue
+        seen_sigs.add(json.dumps(sig, sort_keys=True))
         res.findings.append({"sig": sig, "what": "after `%s` the object %s (%s) changed: %r -> %r\n%s"
                                                  % (line, var, type(obj).__name__, before, after, script)})
     # every derived object equals what its own chain of calls builds in isolation (no sibling influence)
